@@ -72,6 +72,11 @@ func TestVerifC04(t *testing.T) {
 				p.name, p.forge = "forging-peer", 20
 			case 2:
 				p.name, p.stall, p.drop = "stalled-reader", 100, 5
+				if i%12 == 5 {
+					// the stalled application lowers its window below what already waits: the
+					// advertisement must go to 0, not wrap (beyond "set before traffic starts", checked anyway)
+					p.name, p.shrinkWnd = "stalled-reader-shrinks-window", true
+				}
 			}
 			return p
 		},
